@@ -447,6 +447,24 @@ fn op_strategy() -> impl Strategy<Value = SendOp> {
     ]
 }
 
+/// sends whose frame length steps byte by byte across 2^12, 2^13, 2^14, 2^15 and 2^16 (88 consecutive lengths each), in
+/// both framing modes: a writer that treats "small" and "large" frames differently has its boundary somewhere there
+fn size_sweep() -> Vec<SeqCase> {
+    let mut out = vec![];
+    let to = Value::Pid { node: "peer@127.0.0.1".into(), id: 5, serial: 0, creation: 1 };
+    for header_mode in [true, false] {
+        for p in [4096usize, 8192, 16384, 32768, 65536] {
+            for base in ((p - 80)..(p + 8)).step_by(8) {
+                let ops = (base..base + 8)
+                    .map(|n| SendOp::Send { to: to.clone(), payload: Value::binary(&(0..n).map(|i| (i * 13 % 251) as u8).collect::<Vec<u8>>()) })
+                    .collect();
+                out.push(SeqCase { header_mode, peer_header: true, ops, repr: vec![], huge_kib: 0, state: 0 });
+            }
+        }
+    }
+    out
+}
+
 fn seq_strategy() -> impl Strategy<Value = SeqCase> {
     (any::<bool>(), prop::bool::weighted(0.7), prop::collection::vec(op_strategy(), 1..8), arb_choices(24), prop_oneof![8 => Just(0u8), 1 => Just(1u8), 1 => Just(2u8), 1 => Just(3u8), 1 => Just(4u8)], prop_oneof![60 => Just(0u32), 1 => Just(9000u32), 1 => 5000u32..14000])
         .prop_map(|(header_mode, peer_header, ops, repr, state, huge_kib)| SeqCase { header_mode, peer_header, ops, repr, state, huge_kib })
@@ -459,7 +477,7 @@ fn conc_strategy() -> impl Strategy<Value = ConcCase> {
 
 pub fn run(run: &mut Run) {
     run.rule = "(a) sequences of send / send-to-name / link / unlink / monitor / demonitor on a Connection handshaken with a scripted peer, in pass-through and in distribution-header mode, with pids/refs \
-        in plain and node-local form, names of 0..255 bytes, payloads from the term space, unlink ids over the 64-bit range; also on a never-connected and on a closed Connection. The peer's byte stream is \
+        in plain and node-local form, names of 0..255 bytes, payloads from the term space (and 248..320 distinct atoms; sends whose frame length steps byte by byte across 2^12..2^16), unlink ids over the 64-bit range; also on a never-connected and on a closed Connection. The peer's byte stream is \
         cut into frames by an independent deframer and each frame read by an independent reader (pass-through layout or distribution header) and compared with the protocol's control tuple for the operation. \
         (b) 1..5 tasks issuing 1..7 operations each through one Node, interleaved by a generated schedule applied at the scheduling points between the partial writes of a frame and before each connection lock. \
         Non-trivial = (a) >= 2 operations or a boundary argument, (b) >= 2 tasks and a schedule that yielded inside a frame"
@@ -468,10 +486,11 @@ pub fn run(run: &mut Run) {
         "the 'Unused' slot of SEND / REG_SEND may hold any term".into(),
         "task interleaving is controlled at the instrumented scheduling points and at real I/O waits only".into(),
     ];
+    run.enumerate("frame-sizes-around-powers-of-two", size_sweep().into_iter(), seq_oracle);
     run.prop("operations", seq_strategy, run.tier.pick(4000, 150_000), seq_oracle);
     run.prop("concurrent-node", conc_strategy, run.tier.pick(2500, 100_000), conc_oracle);
 }
 
 pub fn replays() -> Vec<ReplayEntry> {
-    vec![replay_entry("operations", seq_oracle), replay_entry("concurrent-node", conc_oracle)]
+    vec![replay_entry("operations", seq_oracle), replay_entry("frame-sizes-around-powers-of-two", seq_oracle), replay_entry("concurrent-node", conc_oracle)]
 }
